@@ -54,6 +54,10 @@ def gen_cases(rng, tier):
                 seen.add(k)
                 keep.append(c)
         cs = keep
+    # several years of hourly loads (the API accepts them): the written file must validate and load like any other
+    my = cfg("RECTANGLE", months=24, loads={"kind": "balanced", "scale": 1000.0, "seed": 2})
+    my["_years_of_loads"] = 2
+    cs.append(my)
     # rotations on the 0.1 degree grid (deg -> rad -> deg must be the identity on the written file)
     rots = [round(-90 + 0.1 * k, 1) for k in range(0, 1801, 1 if tier != "quick" else 37)]
     for r in rots:
@@ -70,7 +74,7 @@ def run(chk):
     chk.build("C17", extra=["Model/InputIO"])
     rng = chk.rng
     cases = gen_cases(rng, chk.tier)
-    pub = [{k: v for k, v in c.items() if not k.startswith("_")} for c in cases]
+    pub = [{k: v for k, v in c.items() if not k.startswith("_") or k == "_years_of_loads"} for c in cases]
     from concurrent.futures import ThreadPoolExecutor
     parts = [pub[i:i + 8] for i in range(0, len(pub), 8)]
     with ThreadPoolExecutor(max_workers=NPROC) as ex:
